@@ -391,7 +391,8 @@ var roleSpecs = []roleSpec{
 	// functions and methods
 	{"wantsCompressedResponse", func(p *Program) types.Object {
 		return p.funcWhere("", func(_ *ssa.Function, sig *types.Signature) bool {
-			return sigIs(sig, []string{"*net/http.Request", "net/http.ResponseWriter"}, []string{"bool", "string"})
+			return sigIs(sig, []string{"*net/http.Request", "net/http.ResponseWriter"}, []string{"bool", "string"}) ||
+				sigIs(sig, []string{"net/http.ResponseWriter", "*net/http.Request"}, []string{"bool", "string"})
 		})
 	}},
 	{"tokenizePath", func(p *Program) types.Object {
@@ -410,8 +411,17 @@ var roleSpecs = []roleSpec{
 		})
 	}},
 	{"Route.wrapRequestResponse", func(p *Program) types.Object {
-		return p.funcWhere("Route", func(_ *ssa.Function, sig *types.Signature) bool {
-			return sig.Results().Len() == 2 && typeIs(sig.Results().At(0).Type(), "*Request") && typeIs(sig.Results().At(1).Type(), "*Response")
+		// a method of Route, or (after "method to function") a function that takes the route
+		return p.funcWhere("*", func(fn *ssa.Function, sig *types.Signature) bool {
+			if sig.Results().Len() != 2 || !typeIs(sig.Results().At(0).Type(), "*Request") || !typeIs(sig.Results().At(1).Type(), "*Response") {
+				return false
+			}
+			for _, prm := range fn.Params {
+				if isRouteish(prm.Type()) {
+					return true
+				}
+			}
+			return false
 		})
 	}},
 	{"<registry>.accessorAt", func(p *Program) types.Object {
@@ -593,4 +603,46 @@ func canonicaliseAll(p *Program) (*Program, error) {
 	}
 	p.Canonical = all
 	return p, nil
+}
+
+// pairWrapper: the function that builds the per-request *Request/*Response pair for a selected route, and the
+// positions of its route, writer, request and parameter-map parameters (-1 when absent). Found by its role, so
+// that it may be a method of Route or a plain function, with its parameters in any order.
+type pairWrapperInfo struct {
+	Fn                           *ssa.Function
+	Route, Writer, Req, PathVars int
+}
+
+func (p *Program) pairWrapper() *pairWrapperInfo {
+	var spec *roleSpec
+	for i := range roleSpecs {
+		if roleSpecs[i].Canon == "Route.wrapRequestResponse" {
+			spec = &roleSpecs[i]
+		}
+	}
+	if spec == nil {
+		return nil
+	}
+	obj, _ := spec.Find(p).(*types.Func)
+	if obj == nil {
+		return nil
+	}
+	fn := p.Prog.FuncValue(obj)
+	if fn == nil {
+		return nil
+	}
+	w := &pairWrapperInfo{Fn: fn, Route: -1, Writer: -1, Req: -1, PathVars: -1}
+	for k, prm := range fn.Params {
+		switch {
+		case isRouteish(prm.Type()):
+			w.Route = k
+		case isHTTPResponseWriter(prm.Type()):
+			w.Writer = k
+		case isHTTPRequestPtr(prm.Type()):
+			w.Req = k
+		case typeIs(prm.Type(), "map[string]string"):
+			w.PathVars = k
+		}
+	}
+	return w
 }
